@@ -415,8 +415,9 @@ where
 
     #[inline(always)]
     fn interpolate(a: f64, b: f64, t: f64) -> f64 {
-        debug_assert!((0. ..=1.).contains(&t));
-        debug_assert!(a <= b);
+        // floating point rounding may push `t` marginally outside of [0, 1] (and `a` marginally
+        // above `b`), so clamp instead of asserting
+        let t = t.max(0.).min(1.);
         t * b + (1. - t) * a
     }
 
